@@ -415,6 +415,13 @@ def check_c17(lang, rnd):
         if [g["name"] for g in got] != ["alpha", "gamma"]:
             fails.append(("marked-not-omitted-or-others-lost", f"marker {marker!r}: reported {[g['name'] for g in got]}", w.text()))
             continue
+        try:
+            ms = analyse_file(lang, w.text().encode())      # the same through scan_path on a real file
+            if ms is None or [mtuple(m) for m in ms] != got:
+                fails.append(("file-on-disk-differs", f"marker {marker!r}: the scanned file reports {None if ms is None else [m.unit_name for m in ms]}, "
+                              f"the text itself {[g['name'] for g in got]}", w.text()))
+        except Exception as e:  # noqa
+            fails.append(("exception", f"{type(e).__name__}: {e}", w.text()))
         others = [r for r in ref if r["name"] != "beta"]
         if got != others:
             fails.append(("marking-changed-another-function", f"marker {marker!r}: {got} vs {others}", w.text()))
@@ -526,6 +533,18 @@ def work(job):
                 except Exception as e:  # noqa
                     if not isinstance(e, Timeout):
                         fail("file-on-disk", f"{type(e).__name__}: {e}", w.text(), None, set(w.tags))
+            # characters that str.splitlines() treats as line ends but that are not line ends here: a form-feed-only line on top
+            # shifts every span by exactly one line; a comment holding U+2028 / U+000B on the first line shifts nothing
+            for w in progs[::3]:
+                lines0 = w.text().split("\n")
+                cm = COMMENT[lang][0]
+                variants = [("page-break-line", "\x0c\n" + w.text(), 1),
+                            ("odd-separator-in-comment", "\n".join([lines0[0] + "  " + cm + "\u2028x\x0by"] + lines0[1:]), 0)]
+                for vk, vt, shift in variants:
+                    res["evaluations"] += 1
+                    exp2 = [dict(e, start=(e["start"][0] + shift, e["start"][1]), end=(e["end"][0] + shift, e["end"][1])) for e in w.expected]
+                    for kind, what, *role in check_c01(lang, vt, exp2, w.tags):
+                        fail(kind, f"[{vk}] " + what, vt, {"expected": exp2}, set(w.tags) | set(role) | {vk})
             # texts with tokens that span physical lines (text blocks, macro continuations, backslash continuations): the
             # file with CRLF line ends gives what the file with LF line ends gives, which is what the text itself gives
             for t in MULTILINE_TOKEN_TEXTS.get(canon.LANGS[lang][1] if lang not in ("Java", "C", "C++") else lang, []):
@@ -540,6 +559,31 @@ def work(job):
                 except Exception as e:  # noqa
                     if not isinstance(e, Timeout):
                         fail("file-on-disk", f"{type(e).__name__}: {e}", t, None, {"multi-line-token"})
+            if lang == "Python":
+                import tempfile, shutil
+                from pathlib import Path
+                from codelimit.common.Scanner import scan_path
+                from codelimit.common.Configuration import Configuration
+                for w in progs[1:4]:
+                    d = tempfile.mkdtemp(prefix="verif_c01_")
+                    try:
+                        (Path(d) / "Makefile").write_text("all:\n\techo hi\n")
+                        (Path(d) / "LICENSE").write_text("text\n")
+                        (Path(d) / "site").mkdir()
+                        (Path(d) / "site" / "SConstruct").write_text(w.text())
+                        (Path(d) / "site" / "README").write_text("text\n")
+                        Configuration.exclude = []
+                        res["evaluations"] += 1
+                        cb = scan_path(Path(d))
+                        e = cb.files.get("site/SConstruct")
+                        got = None if e is None else [mtuple(m) for m in e.measurements()]
+                        direct = [mtuple(m) for m in analyse(lang, w.text())]
+                        if got != direct:
+                            fail("file-on-disk", f"site/SConstruct next to Makefile and LICENSE: {got} but the text itself gives {direct}", w.text(), None, set(w.tags))
+                    except Exception as e:  # noqa
+                        fail("file-on-disk", f"{type(e).__name__}: {e}", w.text(), None, set(w.tags))
+                    finally:
+                        shutil.rmtree(d, ignore_errors=True)
             res["samples"] = [{"language": lang, "text": progs[1].text()[:300], "expected": progs[1].expected}]
         elif prop in ("C05", "C03"):
             cases = [("canonical", w.text(), w.tags) for w in progs]
